@@ -74,7 +74,7 @@ def decide(prop, tier, seed=0, use_cache=True, out=sys.stdout):
         for t in r.get("trusted", []):
             trusted.add(t)
         if r["status"] in ("extract-error", "compile-error", "tool-error"):
-            undecided_units.append((unit, r["status"], r.get("messages", [])))
+            undecided_units.append((unit, r["status"], r.get("messages", []), r.get("error_fns")))
             ev["messages"] = r.get("messages", [])[:5]
         else:
             n_air = r.get("obligations") or r.get("verified") or 0
@@ -87,7 +87,7 @@ def decide(prop, tier, seed=0, use_cache=True, out=sys.stdout):
             c = verus_run.run_unit(unit, canary=True, use_cache=use_cache)
             ev["canary_sites"] = c.get("canary_sites"); ev["canary_missed"] = c.get("canary_missed")
             if c.get("canary_missed"):
-                undecided_units.append((unit, "vacuity-canary", ["canary assert(false) verified (contradictory requires/invariant?) at: %s" % c["canary_missed"]]))
+                undecided_units.append((unit, "vacuity-canary", ["canary assert(false) verified (contradictory requires/invariant?) at: %s" % c["canary_missed"]], None))
         ev_units.append(ev)
     # ---------------------------------------------------------------- engine K / Kb
     hs = [h for h, i in cfg["harnesses"].items() if prop in i.get("props", []) and i.get("enabled", True) and (i.get("tier", "quick") == "quick" or tier == "thorough")]
@@ -108,7 +108,7 @@ def decide(prop, tier, seed=0, use_cache=True, out=sys.stdout):
              "covers": r.get("covers_total"), "cached": r.get("cached", False)}
         ev_kani.append(e)
         if r.get("covers_unsat"):
-            undecided_units.append(("kani:" + h, "vacuity-cover", r["covers_unsat"]))
+            undecided_units.append(("kani:" + h, "vacuity-cover", r["covers_unsat"], None))
         if info.get("level") == "complete":
             obligations += r.get("checks_total") or 0
             discharged += (r.get("checks_total") or 0) - (r.get("checks_failed") or 0)
@@ -159,12 +159,18 @@ def decide(prop, tier, seed=0, use_cache=True, out=sys.stdout):
                                        "src_file": fc["file"], "src_line": fc["line"], "fn": fc["fn"], "level": cfg["harnesses"][h].get("level")})
     have_kani_cex = any(v["engine"] == "kani" for v in violations)
     twin_ok = bool(twin_names) and all(((twin_res or {}).get("harnesses", {}).get(h) or kres["harnesses"].get(h) or {}).get("status") == "success" for h in twin_names)
-    # auxiliary-only failures
+    # functions exercised by twin harnesses that succeeded on this tree
+    covered = set()
+    for h in twin_names:
+        st = ((twin_res or {}).get("harnesses", {}).get(h) or kres["harnesses"].get(h) or {}).get("status")
+        if st == "success":
+            covered |= set(cfg["harnesses"][h].get("covers", []))
+    # auxiliary-only failures: excused only when the function is exercised by a clean twin
     if aux_fail and not violations:
-        if twin_ok and not have_kani_cex:
-            downgrade += ["proof not re-established: %s; bounded twin harnesses clean (%s)" % (a["name"], ", ".join(twin_names)) for a in aux_fail]
-        else:
-            for a in aux_fail:
+        for a in aux_fail:
+            if twin_ok and not have_kani_cex and a.get("fn", "?").split("::")[-1] in covered:
+                downgrade.append("proof not re-established: %s; bounded twin harnesses covering %s clean" % (a["name"], a.get("fn")))
+            else:
                 if not known_match(prop, a["name"], known):
                     violations.append(dict(a, note="auxiliary obligation (invariant/proof step) that is discharged on the unchanged tree now fails; no bounded twin harness settled it"))
     for f, k in findings:
@@ -201,7 +207,21 @@ def decide(prop, tier, seed=0, use_cache=True, out=sys.stdout):
         lines.append("VIOLATION property=%s replay=%s%s" % (prop, path, suffix))
         rc = 1
     if rc == 0:
-        hard = [u for u in undecided_units if not (u[1] in ("extract-error", "compile-error", "tool-error") and twin_names and not have_kani_cex and twin_ok)]
+        # an undecided Verus unit is excused only if every function its errors point at is exercised by a twin that succeeded
+        covered = set()
+        for h in twin_names:
+            st = ((twin_res or {}).get("harnesses", {}).get(h) or kres["harnesses"].get(h) or {}).get("status")
+            if st == "success":
+                covered |= set(cfg["harnesses"][h].get("covers", []))
+
+        def excused(u):
+            if u[1] not in ("extract-error", "compile-error", "tool-error") or not twin_ok:
+                return False
+            fns = u[3] if len(u) > 3 else None
+            if not fns:
+                return False
+            return all(f.split("::")[-1] in covered for f in fns)
+        hard = [u for u in undecided_units if not excused(u)]
         soft = [u for u in undecided_units if u not in hard]
         for u in soft:
             downgrade.append("unit %s not verifiable on this tree (%s: %s); bounded twin harnesses clean (%s)" % (u[0], u[1], "; ".join(map(str, u[2]))[:300], ", ".join(twin_names)))
